@@ -77,6 +77,9 @@ RULE = ("scripts of loop-thread actions (add/remove reader/writer, close an unre
         "consume / unregister / unregister+close / register, close) x seeded schedules over the yield points of both threads; "
         "non-trivial = at least one user fd dispatched or a registration changed while a select was in progress")
 EXHAUSTIVE = {"quick": False, "thorough": False}
+CLAUSE_CAVEATS = [
+    'the liveness chain (no_lost_event, every_schedule_dispatches, no_lost_event_fair) is stated for reader fds; writers have the safety forms quiescent_nothing_ready / ready_fd_forces_progress; executions with raising callbacks or EBADF recovery are outside the fairness theorems (tie only)',
+]
 CLAUSES = {
     "at most one select call is in progress": "token_unique, at_most_one_select, assert_never_fails, post_finds_args_empty",
     "every readiness of an fd that stays registered is eventually dispatched on the event-loop thread":
